@@ -165,9 +165,22 @@ func buildMessage(pkg string, mi int, m absd.Msg, sci *descriptor.SourceCodeInfo
 	for _, o := range m.Oneofs {
 		dp.OneofDecl = append(dp.OneofDecl, &descriptor.OneofDescriptorProto{Name: proto.String(o)})
 	}
-	if len(m.Comment) > 0 && sci != nil {
-		sci.Location = append(sci.Location, &descriptor.SourceCodeInfo_Location{
-			Path: []int32{4, int32(mi)}, LeadingComments: proto.String(absd.Raw(m.Comment))})
+	// Source code info the way protoc writes it: one location per declaration and per part of it (name, number, type ...),
+	// with the leading comment where there is one, and - on commented declarations - a trailing and a detached comment
+	// as well.  Only the LEADING comment of the declaration's own location is its description.
+	if sci != nil {
+		loc := &descriptor.SourceCodeInfo_Location{Path: []int32{4, int32(mi)}, Span: []int32{int32(10 * mi), 0, int32(10*mi + 9), 1}}
+		if len(m.Comment) > 0 {
+			loc.LeadingComments = proto.String(absd.Raw(m.Comment))
+			loc.TrailingComments = proto.String(" trailing remark on the message\n")
+			loc.LeadingDetachedComments = []string{" a detached block in front of the message\n"}
+		}
+		sci.Location = append(sci.Location, loc,
+			&descriptor.SourceCodeInfo_Location{Path: []int32{4, int32(mi), 1}, Span: []int32{int32(10 * mi), 8, 12}})
+		for oi := range m.Oneofs {
+			sci.Location = append(sci.Location, &descriptor.SourceCodeInfo_Location{Path: []int32{4, int32(mi), 8, int32(oi)},
+				Span: []int32{int32(10*mi + 1), 2, int32(10*mi + 3), 3}, LeadingComments: proto.String(" the group of alternatives\n")})
+		}
 	}
 	for fi, f := range m.Fields {
 		fd := &descriptor.FieldDescriptorProto{Name: proto.String(f.Name), Number: proto.Int32(int32(f.Num)), JsonName: proto.String(jsonName(f.Name))}
@@ -240,9 +253,25 @@ func buildMessage(pkg string, mi int, m absd.Msg, sci *descriptor.SourceCodeInfo
 		if hasOpts {
 			fd.Options = opts
 		}
-		if len(f.Comment) > 0 && sci != nil {
-			sci.Location = append(sci.Location, &descriptor.SourceCodeInfo_Location{
-				Path: []int32{4, int32(mi), 2, int32(fi)}, LeadingComments: proto.String(absd.Raw(f.Comment))})
+		if sci != nil {
+			base := []int32{4, int32(mi), 2, int32(fi)}
+			sub := func(n int32) []int32 { return append(append([]int32{}, base...), n) }
+			loc := &descriptor.SourceCodeInfo_Location{Path: base, Span: []int32{int32(10*mi + fi + 1), 2, 30}}
+			if len(f.Comment) > 0 {
+				loc.LeadingComments = proto.String(absd.Raw(f.Comment))
+				loc.TrailingComments = proto.String(" trailing remark on the field\n")
+				loc.LeadingDetachedComments = []string{" a detached block in front of the field\n"}
+			} else if fi%2 == 1 {
+				// no leading comment: a trailing one alone describes nothing
+				loc.TrailingComments = proto.String(" only a trailing remark\n")
+			}
+			sci.Location = append(sci.Location, loc,
+				&descriptor.SourceCodeInfo_Location{Path: sub(5), Span: []int32{int32(10*mi + fi + 1), 2, 8}},
+				&descriptor.SourceCodeInfo_Location{Path: sub(1), Span: []int32{int32(10*mi + fi + 1), 9, 14}},
+				&descriptor.SourceCodeInfo_Location{Path: sub(3), Span: []int32{int32(10*mi + fi + 1), 17, 18}})
+			if hasOpts {
+				sci.Location = append(sci.Location, &descriptor.SourceCodeInfo_Location{Path: sub(8), Span: []int32{int32(10*mi + fi + 1), 19, 29}})
+			}
 		}
 		dp.Field = append(dp.Field, fd)
 	}
@@ -297,6 +326,12 @@ func buildFileEnum(name, pkg, goImport string, msgs []absd.Msg, withGogo, withEn
 		fd.MessageType = append(fd.MessageType, buildMessage(pkg, i, m, sci))
 	}
 	if len(sci.Location) > 0 {
+		// file-level declarations carry comments of their own (paths 12 = syntax, 2 = package)
+		sci.Location = append([]*descriptor.SourceCodeInfo_Location{
+			{Path: []int32{}, Span: []int32{0, 0, int32(10*len(msgs) + 9), 1}},
+			{Path: []int32{12}, Span: []int32{0, 0, 18}, LeadingComments: proto.String(" the syntax line\n")},
+			{Path: []int32{2}, Span: []int32{1, 0, 12}, LeadingComments: proto.String(" the package of the file\n")},
+		}, sci.Location...)
 		fd.SourceCodeInfo = sci
 	}
 	if !withEnum {
